@@ -32,15 +32,16 @@ type c20Op struct {
 }
 
 type c20Case struct {
-	Len    int        `json:"len"`
-	K      uint32     `json:"k"`
-	Tweak  uint32     `json:"tweak"`
-	Flags  byte       `json:"flags"`
-	Items  []HexBytes `json:"items"`
-	Txs    c10Case    `json:"txs"` // transactions for matchtx (pool / tx specs reused from C10)
-	Progs  [][]c20Op  `json:"programs"`
-	Reps   int        `json:"reps"`
-	Linear bool       `json:"check_linearizability"`
+	Len     int        `json:"len"`
+	K       uint32     `json:"k"`
+	Tweak   uint32     `json:"tweak"`
+	Flags   byte       `json:"flags"`
+	Items   []HexBytes `json:"items"`
+	Preload int        `json:"preload"` // this many items are inserted before the goroutines start
+	Txs     c10Case    `json:"txs"`     // transactions for matchtx (pool / tx specs reused from C10)
+	Progs   [][]c20Op  `json:"programs"`
+	Reps    int        `json:"reps"`
+	Linear  bool       `json:"check_linearizability"`
 }
 
 type c20Event struct {
@@ -188,6 +189,9 @@ func evalC20(c c20Case, o *Obs) error {
 	overlaps := 0
 	for rep := 0; rep < reps; rep++ {
 		f := bloom.LoadFilter(wire.NewMsgFilterLoad(make([]byte, c.Len), c.K, c.Tweak, wire.BloomUpdateType(c.Flags)))
+		for i := 0; i < c.Preload && i < len(c.Items); i++ {
+			f.Add(c.Items[i])
+		}
 		// fresh reload messages per repetition (each goroutine owns its messages until it hands them over)
 		reloadMsgs := make([][]*wire.MsgFilterLoad, len(c.Progs))
 		for g, prog := range c.Progs {
@@ -260,6 +264,9 @@ func evalC20(c c20Case, o *Obs) error {
 				return fmt.Errorf("filter unloaded although no Unload was issued")
 			}
 			m := newRefBloom(c.Len, c.K, c.Tweak, c.Flags)
+			for i := 0; i < c.Preload && i < len(c.Items); i++ {
+				m.add(c.Items[i])
+			}
 			for g := range inputs {
 				for _, in := range inputs[g] {
 					switch in.op.Op {
@@ -340,7 +347,13 @@ func checkLinearizable(c c20Case, inputs [][]c20Input, events [][]c20Event) porc
 		out, valid bool
 	}
 	model := porcupine.Model{
-		Init: func() interface{} { return fromRef(newRefBloom(c.Len, c.K, c.Tweak, c.Flags)) },
+		Init: func() interface{} {
+			m := newRefBloom(c.Len, c.K, c.Tweak, c.Flags)
+			for i := 0; i < c.Preload && i < len(c.Items); i++ {
+				m.add(c.Items[i])
+			}
+			return fromRef(m)
+		},
 		Step: func(state, input, output interface{}) (bool, interface{}) {
 			s := state.(bloomState)
 			in := input.(c20Input)
@@ -365,13 +378,21 @@ func checkLinearizable(c c20Case, inputs [][]c20Input, events [][]c20Event) porc
 func genC20(t *rapid.T) c20Case {
 	c := c20Case{Len: rapid.IntRange(8, 64).Draw(t, "len"), K: uint32(rapid.IntRange(1, 5).Draw(t, "k")),
 		Tweak: rapid.Uint32().Draw(t, "tweak"), Flags: byte(rapid.IntRange(0, 2).Draw(t, "flags"))}
-	for i := rapid.IntRange(2, 5).Draw(t, "nitems"); i > 0; i-- {
-		c.Items = append(c.Items, genBytes(t, "item", 1, 33))
-	}
 	c.Txs = genC10(t)
 	if len(c.Txs.Txs) > 4 {
 		c.Txs.Txs = c.Txs.Txs[:4]
 	}
+	// the items inserted / queried are the pushes the transactions carry, so MatchTxAndUpdate
+	// really matches outputs and (flags All / P2PubkeyOnly) really writes to the filter
+	for _, it := range c.Txs.Pool {
+		if len(it) > 0 {
+			c.Items = append(c.Items, it)
+		}
+	}
+	if rapid.IntRange(0, 3).Draw(t, "flagsall") != 0 {
+		c.Flags = 1
+	}
+	c.Preload = rapid.IntRange(0, 3).Draw(t, "preload")
 	c.Linear = rapid.IntRange(0, 2).Draw(t, "linear") == 0
 	var g, maxOps int
 	if c.Linear {
@@ -423,8 +444,9 @@ var kC20 = register(&Kind[c20Case]{Prop: "C20", Name: "program", Gen: genC20, Ev
 // ---- GCS: immutable, concurrent queries ------------------------------------------------------
 
 type c20GCS struct {
-	D gcsData `json:"filter"`
-	G int     `json:"goroutines"`
+	D     gcsData `json:"filter"`
+	G     int     `json:"goroutines"`
+	Fresh int     `json:"fresh"` // 0: query the warmed filter; 1: a freshly built one; 2: one re-parsed from NBytes
 }
 
 func evalC20GCS(c c20GCS, o *Obs) error {
@@ -449,6 +471,20 @@ func evalC20GCS(c c20GCS, o *Obs) error {
 		seq[i].a, _ = f.MatchAny(key, [][]byte{p, derivedItem(c.D.Seed+3, i)})
 		seq[i].z, _ = f.ZipMatchAny(key, [][]byte{p})
 		seq[i].h, _ = f.HashMatchAny(key, [][]byte{p})
+	}
+	// the concurrent phase runs on a filter object that has never been queried (a
+	// lazily built, unsynchronised cache would only show on first use): rebuilt from
+	// the data or re-parsed from the serialisation
+	if c.Fresh == 1 {
+		if f, err = gcs.BuildGCSFilter(c.D.P, c.D.M, key, items); err != nil {
+			return fmt.Errorf("BuildGCSFilter failed: %v", err)
+		}
+		o.Class("C20:gcs-fresh-built-filter")
+	} else if c.Fresh == 2 {
+		if f, err = gcs.FromNBytes(c.D.P, c.D.M, before); err != nil {
+			return fmt.Errorf("FromNBytes failed: %v", err)
+		}
+		o.Class("C20:gcs-fresh-parsed-filter")
 	}
 	if outDir != "" {
 		js, _ := json.Marshal(map[string]any{"property": "C20", "kind": "gcs", "case": c})
@@ -497,7 +533,7 @@ func evalC20GCS(c c20GCS, o *Obs) error {
 var kC20GCS = register(&Kind[c20GCS]{
 	Prop: "C20", Name: "gcs",
 	Gen: func(t *rapid.T) c20GCS {
-		return c20GCS{D: genGCSData(t, 300), G: rapid.SampledFrom([]int{2, 8, 32}).Draw(t, "g")}
+		return c20GCS{D: genGCSData(t, 300), G: rapid.SampledFrom([]int{2, 8, 32}).Draw(t, "g"), Fresh: rapid.IntRange(0, 2).Draw(t, "fresh")}
 	},
 	Eval: evalC20GCS,
 })
